@@ -175,6 +175,14 @@ def resolve(world, cur, arg, record=None):
         if tag == "$key":
             keys = _stable(coll.keys(), coll) if coll is not None and hasattr(coll, "keys") else []
             return keys[arg[2] % len(keys)] if keys else KEYS[arg[2] % len(KEYS)]
+        if tag == "$same":
+            # the very object the instance already holds under another attribute (or in another container): internal aliasing
+            if coll is None:
+                return 0
+            if len(arg) > 2:
+                items = list(coll.values()) if isinstance(coll, dict) else (_stable(coll, coll) if hasattr(coll, "__iter__") else [])
+                return items[arg[2] % len(items)] if items else 0
+            return coll
         if tag == "$alias":
             # ONE element of the container (a private copy of it), held n times: [e, e, e] / {"a": e, "b": e}
             src_items = list(coll.values()) if isinstance(coll, dict) else (list(coll) if coll is not None else [])
